@@ -50,7 +50,7 @@ def plan(tier, seed):
     specs.extend(big.specs(tier, seed, 'C07'))
     meta = dict(
         rule=RULE,
-        require=['big_histories', 'swap_cases', 'reorder_to_cases', 'pairs_cases',
+        require=['big_histories', 'huge_histories', 'swap_cases', 'reorder_to_cases', 'pairs_cases',
                  'sift_cases', 'swap_calls_observed',
                  'swap_index_checks', 'held_refs_rechecked',
                  'explicit_reorderings_with_dynamic_due'],
